@@ -282,11 +282,17 @@ func (r *Raft) onSnapshotTaken(t snapTaken) {
 		nowCompact, canCompact := t.meta.index, t.meta.index
 		if r.state == Leader {
 			for _, repl := range r.ldr.repls {
-				if repl.status.matchIndex < nowCompact {
-					nowCompact = repl.status.matchIndex
+				// repl still reads the entry at its matchIndex from log,
+				// to fill prevLogTerm of its next request. so that entry must stay
+				needed := repl.status.matchIndex
+				if needed > 0 {
+					needed--
 				}
-				if repl.status.noContact.IsZero() && repl.status.matchIndex < canCompact {
-					canCompact = repl.status.matchIndex
+				if needed < nowCompact {
+					nowCompact = needed
+				}
+				if repl.status.noContact.IsZero() && needed < canCompact {
+					canCompact = needed
 				}
 			}
 		}
